@@ -23,7 +23,14 @@ def default_in_force(cx, mido):
     """The default charset is in force again (observable through the public
     API: a text meta message encodes 'é' as the single latin1 byte E9 and
     decodes E9 back)."""
-XX
+    from mido.midifiles import meta
+    try:
+        b = mido.MetaMessage('text', text='é').bytes()
+        dec = mido.MetaMessage.from_bytes([0xFF, 0x01, 0x01, 0xE9])
+    except (UnicodeError, LookupError):
+        return False                 # another charset is still in force
+    internal = getattr(meta, '_charset', 'latin1')
+    return list(b) == [0xFF, 0x01, 0x01, 0xE9] and dec.text == 'é' and internal == 'latin1'
 
 
 def _valid_file(cx, mido, charset, text):
